@@ -124,13 +124,13 @@ package app
 //@ before MakeResult assert forall(i, 0, len(reconcile), isnil(reconcile[i](reconciler)))
 //@ loop 1 invariant forall(i, 0, rangeindex+1, isnil(reconcile[i](reconciler)))
 
-// ReconcileFile: the target file is written at most once, only after retrieval, parsing, every step and the safeguard
-// succeeded, and then with exactly the text the safeguard accepted; success is reported only after that write; every
+// ReconcileFile: the target file is written at most once, only after retrieval, parsing (the target itself has no
+// syntax errors), every step and the safeguard succeeded, and then with exactly the text the safeguard accepted; success is reported only after that write; every
 // failure before it leaves the disk untouched and returns no result.
 //@ func (*context).ReconcileFile
 //@ requires ctx != nil && nonnil(ctx.parser) && forall(i, 0, len(reconcile), reconcile[i] != nil)
 //@ noframe
-//@ before WriteToFile assert isnil(err) && isnil(aErr) && result != nil && txt.valid(result.AllSerialised) && writes() == old(writes())
+//@ before WriteToFile assert isnil(err) && errs == nil && isnil(aErr) && result != nil && txt.valid(result.AllSerialised) && writes() == old(writes())
 //@ ensures isnil(result1) == (result0 != nil)
 //@ ensures writes() == old(writes()) || (writes() == old(writes()) + 1 && txt.valid(lastdata()))
 //@ ensures implies(result0 != nil, writes() == old(writes()) + 1 && same(lastdata(), result0.AllSerialised))
